@@ -61,3 +61,12 @@ pub fn factory_pool(a: &Args) {
     let out = rt.block_on(fp::pool_step_q(a.usize("pool_size"), &slots, &busy, &queued, a.str("op")));
     println!("out={}", out.replace('=', ":"));
 }
+
+/// factory_drain draining=0|1 busy=<wids> queued=<n> msg=<drain|dispatch|finished:<wid>>
+pub fn factory_drain(a: &Args) {
+    use ractor::factory::factoryimpl::verif_probe as fp;
+    let rt = tokio::runtime::Builder::new_current_thread().enable_time().build().unwrap();
+    let busy: Vec<usize> = a.list_u128("busy").iter().map(|x| *x as usize).collect();
+    let out = rt.block_on(fp::drain_step(a.u64("draining") == 1, &busy, a.usize("queued"), a.str("msg")));
+    println!("out={}", out.replace('=', "~"));
+}
